@@ -48,6 +48,22 @@ CLAIMED["C09"] = (
     "DESIGN.md §4 C09",
 )
 
+CLAIMED["C14"] = (
+    "Theorems for argument vectors and TOML documents of any size: merge laws (lists combined, booleans or-ed, scalars take the "
+    "command-line value, config value as fallback; merge fails only when both all-switches are set), file arguments commute with "
+    "options (any interleaving = options first, files in order), per-option config/CLI equivalence (quiet, load, ignore, enable, "
+    "disable, python_version, format, sort_by, mypy_args, each under the stated 'only mention' guard), and totality: lex, "
+    "parse_command_line_args, parse_config_file on every TOML table and load_settings end only in a value or a refurb:-style "
+    "ValueError (`Clean`), proved through every bind of the parser. Model tied to settings.py by ~3k (argv, config bytes) pairs per "
+    "run incl. an ill-typed stream (every key x 14 TOML kinds) and confirmed through the CLI.",
+    COMMON_NOTE
+    + "Modelled, not verified: tomllib and the file system (the model receives the outcome of reading+parsing the file); Unicode digit "
+    "tables are regenerated from the running interpreter (Generated/Unicode.lean); int()'s 4300-digit limit is not modelled; that "
+    "refurb: messages are single lines is checked on the implementation (CLI), not proved.",
+    "Lean 4 proof (induction over argv / bind-by-bind totality) + model/implementation correspondence + CLI failure oracle",
+    "DESIGN.md §4 C14",
+)
+
 NOT_YET = "check not built yet in this round (work in progress; see DESIGN.md §8 order of work)"
 
 
